@@ -281,6 +281,31 @@ def lazy_cond(x):
     return ["cond", [C("isodd", V(x)), C("inc", V(x)), C("neg", V(x))]]
 
 
+@template
+def deep_fail(n, kind, msg):
+    # a failure n task-levels below the caller (ancestors of the failing job)
+    if n <= 0:
+        return C("add", C("fail", V(kind), V(msg)), V(1))
+    return ["cont", "list", [C("deep_fail", V(n - 1), V(kind), V(msg)), C("inc", V(n))]]
+
+
+@template
+def wrap_call(name, x, limits):
+    # the same call (with the same resource demand) made from beneath a different parent job
+    return ["call", name, [V(x)], {}, {"limits": limits} if limits else {}]
+
+
+@template
+def ctx_tree(spec):
+    """spec = {"reads": [[path, default], ...], "children": [[opts, spec], ...]}; opts holds the
+    update_context overrides of the child call."""
+    return ["cont", "dict", [
+        [V("reads"), ["cont", "list", [["getctx", p, d] for p, d in spec.get("reads", [])]]],
+        [V("children"), ["cont", "list", [["call", "ctx_tree", [V(sub)], {}, dict(opts)] for opts, sub in spec.get("children", [])]]],
+        [V("dflt"), C("dflt_ctx", V(0))] if spec.get("dflt") else [V("dflt"), V(None)],
+    ]]
+
+
 def _mk_t(name, fn):
     def body(*args, **kwargs):
         from vlib import wf
